@@ -10,14 +10,16 @@ genparams = cc.genparams
 MANIFEST = dict(
     engine="cron",
     technique="Coq proof of leastness and expiry-iff for the state machine model (same development as C01); extracted model, "
-              "extracted declarative reference search and an independent Go day-by-day oracle run against the real trigger",
+              "extracted declarative reference search and an independent Go day-by-day oracle run against the real trigger"
+              " + source-to-Gallina translation of internal/csm's node level proved equivalent to the model (SrcTie)",
     text="Machine-checked for every well-formed expression, fixed offset within +-26h and prev in [0, MaxInt64]: no whole-second "
          "instant strictly between prev and the returned value satisfies the expression; Expired is returned iff no satisfying "
          "instant exists up to the int64-nanosecond limit (year field exhausted, day rule never matching again, result beyond "
          "2262); iterating enumerates every scheduled instant once and in order. The correspondence run compares the real "
          "CronTrigger with the extracted model and with a specification-level reference search (least matching civil tuple by "
          "walking months and days) on the same placement grid as C01, with expiry-focused expressions (bounded year sets, day "
-         "30/31 of short months, L-31, n#5); the thorough tier adds an independent brute-force oracle written in Go.",
+         "30/31 of short months, L-31, n#5); the thorough tier adds an independent brute-force oracle written in Go."
+         " The node level of internal/csm (util.go, common_node.go, day_node.go: every function) is additionally translated from the Go SOURCE into Gallina on every run (Gen/CsmSrc.v) and proved equal to the model's node functions for all inputs (SrcEquiv.v, Props/SrcTie.v), so a change of these functions breaks a proof obligation even where no sampled input shows it.",
     design_ref="6 C02")
 
 
